@@ -3,12 +3,19 @@ PROP = dict(
         pkg="c15", level="exploration",
         technique="model-based stateful PBT (rapid): differential memory vs Pebble v1 vs Pebble v2 vs sorted-map reference model",
         level_text=("Exploration: generated operation histories (thousands per run, every result compared with an explicit reference "
-                    "model and across three backends); samples the space, does not prove absence. Concurrent-reader variant under -race."),
+                    "model and across three backends); samples the space, does not prove absence. Concurrent-reader variant under -race. "
+                    "TestPropLargeBatches covers the size of the atomic unit: single batches of 1-33 MiB (thorough: 65 MiB), read through the "
+                    "store and through the batch while they are open, then written, dropped or failed."),
         rule=("rapid state machine over a tiny key alphabet ({00,01,7f,fe,ff}, length 0-4) applied to memory, Pebble v1, "
               "Pebble v2 and a sorted-map model; every result compared. Non-trivial = the sequence contains an iterator "
               "moved back from past the end, a DeleteRange inside a batch overlapping batch-local writes, an 0xff-terminated "
               "prefix iteration, a snapshot read after a later write, or a failing Update/Write callback; distinct = distinct "
-              "SHA-256 of the rendered operation sequence."),
+              "SHA-256 of the rendered operation sequence. Large batches: one batch per case (plain, indexed, with size hint, SyncBatch, "
+              "Update/Write helper) accumulating a drawn total around 1/4/10+-/16/33 MiB (thorough up to 65 MiB) from 256 KiB-4 MiB values with "
+              "overwrites, deletes and range deletes over 0-6 pre-existing entries; the store is read while the batch is open (nothing visible), "
+              "indexed kinds read their own writes; end = Write / Close without Write / callback ok / callback fails; full scan of each backend "
+              "against the model, snapshot taken before the batch, optional close+reopen of the Pebble stores, small follow-up batch; "
+              "non-trivial = more than 4 MiB buffered."),
         assumptions=["Pebble's own batch atomicity/WAL is trusted", "error identity compared only for db.ErrKeyNotFound",
                      "iterator calls stay within the documented contract (DESIGN §4 C15)"],
         runs=[dict(run="^TestProp"), dict(run="^TestRace", race=True)],
